@@ -59,7 +59,8 @@ static void run_sod(Rng& rng, long ncases) {
   masa_init<S>("sod", "sod_1d");
   long ncmp = 0, ninv = 0, nloc = 0;
   for (long cs = 0; cs < ncases; cs++) {
-    S G = (S)rng.uni(1.05L, 3.0L);
+    // a third of the cases near Gamma = 1, where the wave pattern changes qualitatively (the fan tail crosses x = 0 at Gamma = 1.1148)
+    S G = (rng.below(3) == 0) ? (S)rng.uni(1.02L, 1.2L) : (S)rng.uni(1.05L, 3.0L);
     masa_set_param<S>("Gamma", G);
     masa_set_param<S>("mu", (G - 1) / (G + 1));   // the property speaks of the solution for the current Gamma: mu kept consistent
     Riemann r = solve((Q)G);
@@ -67,11 +68,20 @@ static void run_sod(Rng& rng, long ncases) {
     S t = (S)rng.uni(0.05L, 3.0L);
     // one point per region (+ extra random ones), library values kept for the reference-free invariants
     long double lrho[5], lm[5]; Q xis[5]; bool have[5] = {false, false, false, false, false};
-    for (int k = 0; k < 10; k++) {
+    // 10 regular samples (two per region) + structured ones: both sides of every wave front at relative distances 1e-3 and 1e-2,
+    // and x/t = 0, +-1e-3 c_l, +-1e-2 c_l (the origin is where a sign slip in a wave speed shows)
+    std::vector<Q> special;
+    {
+      Q fr[4] = {r.head, r.tail, r.us, r.S};
+      for (Q f : fr) for (Q dl : {(Q)1e-3Q, (Q)1e-2Q}) { special.push_back(f - dl * (fabsq(f) + r.cl)); special.push_back(f + dl * (fabsq(f) + r.cl)); }
+      for (Q z : {(Q)0, (Q)1e-3Q, (Q)-1e-3Q, (Q)1e-2Q, (Q)-1e-2Q}) special.push_back(z * r.cl);
+    }
+    for (int k = 0; k < 10 + (int)special.size(); k++) {
       int reg = k % 5;
       Q xi;
       long double th = rng.uni(0.03L, 0.97L);
-      if (reg == 0) xi = r.head - (Q)rng.uni(0.01L, 2.0L);
+      if (k >= 10) xi = special[(size_t)(k - 10)];
+      else if (reg == 0) xi = r.head - (Q)rng.uni(0.01L, 2.0L);
       else if (reg == 1) xi = r.head + (Q)th * (r.tail - r.head);
       else if (reg == 2) xi = r.tail + (Q)th * (r.us - r.tail);
       else if (reg == 3) xi = r.us + (Q)th * (r.S - r.us);
